@@ -302,12 +302,18 @@ func (l *commitLog) EarliestOffsetAfterTimestamp(timestamp int64) (int64, error)
 	l.mu.RLock()
 	defer l.mu.RUnlock()
 
+	// The active segment is empty right after it has been rolled. It has no
+	// timestamps to search, so leave it out unless it is the only segment.
+	segments := l.segments
+	if n := len(segments); n > 1 && segments[n-1].IsEmpty() {
+		segments = segments[:n-1]
+	}
+
 	// Find the first segment whose base timestamp is greater than the given
 	// timestamp.
-	idx, err := findSegmentIndexByTimestamp(l.segments, timestamp)
+	idx, err := findSegmentIndexByTimestamp(segments, timestamp)
 	if err == io.EOF {
-		// EOF indicates there is no such segment, meaning the timestamp is
-		// beyond the end of the log so return the next assignable offset.
+		// EOF indicates the log is empty so return the next assignable offset.
 		return l.segments[len(l.segments)-1].NextOffset(), nil
 	}
 	if err != nil {
@@ -318,9 +324,9 @@ func (l *commitLog) EarliestOffsetAfterTimestamp(timestamp int64) (int64, error)
 	// segment, just search it.
 	var seg *segment
 	if idx == 0 {
-		seg = l.segments[0]
+		seg = segments[0]
 	} else {
-		seg = l.segments[idx-1]
+		seg = segments[idx-1]
 	}
 	entry, err := seg.findEntryByTimestamp(timestamp)
 	if err == nil {
@@ -333,8 +339,8 @@ func (l *commitLog) EarliestOffsetAfterTimestamp(timestamp int64) (int64, error)
 	// is greater than or equal to the target timestamp. In this case, search
 	// the next segment if there is one. If there isn't, the timestamp is
 	// beyond the end of the log so return the next assignable offset.
-	if idx < len(l.segments) {
-		seg = l.segments[idx]
+	if idx < len(segments) {
+		seg = segments[idx]
 		entry, err := seg.findEntryByTimestamp(timestamp)
 		if err != nil {
 			return 0, errors.Wrap(err, "failed to find log entry for timestamp")
@@ -350,9 +356,16 @@ func (l *commitLog) LatestOffsetBeforeTimestamp(timestamp int64) (int64, error) 
 	l.mu.RLock()
 	defer l.mu.RUnlock()
 
+	// The active segment is empty right after it has been rolled. It has no
+	// timestamps to search, so leave it out unless it is the only segment.
+	segments := l.segments
+	if n := len(segments); n > 1 && segments[n-1].IsEmpty() {
+		segments = segments[:n-1]
+	}
+
 	// Find the first segment whose base timestamp is greater than the given
 	// timestamp.
-	idx, err := findSegmentIndexByTimestamp(l.segments, timestamp)
+	idx, err := findSegmentIndexByTimestamp(segments, timestamp)
 	if err != nil {
 		return 0, errors.Wrap(err, "failed to find log segment for timestamp")
 	}
@@ -361,14 +374,14 @@ func (l *commitLog) LatestOffsetBeforeTimestamp(timestamp int64) (int64, error) 
 	// segment, just search it.
 	var seg *segment
 	if idx == 0 {
-		seg = l.segments[0]
+		seg = segments[0]
 		// if the given timestamp is before the start of the stream return an
 		// error.
 		if timestamp < seg.FirstWriteTime() {
 			return 0, errors.New("timestamp is before the beginning of the log")
 		}
 	} else {
-		seg = l.segments[idx-1]
+		seg = segments[idx-1]
 	}
 
 	// Find entry equal to or greater than the given timestamp.
